@@ -103,6 +103,8 @@ def main(argv=None):
             for i, s in enumerate(specs):
                 s.setdefault('shard', i)
                 s.setdefault('seed', a.seed)
+                # str hashing differs between interpreter runs in real use: vary it over the shards (recorded per violation)
+                s.setdefault('hashseed', str((int(a.seed) * 7 + i) % 5))
                 s.setdefault('tier', tier)
         results = []
         with cf.ThreadPoolExecutor(max_workers=a.jobs) as ex:
